@@ -3,6 +3,8 @@
 From PGV Require Import Base.Bytes Base.GoStr Base.GoNum Base.Utf8.
 From PGV Require Import Model.RuleText Model.Value Model.Clause Model.Rules Spec.SizeSpec.
 From PGV Require Import Proofs.SizeProofs Proofs.C01Final Run.Run_C01.
+From PGV Require Import Spec.RuleTextSpec Proofs.NumProofs Proofs.C01Builder.
+From PGV Require Import Base.MiniGo Extracted.SourceFns Model.GoSize Proofs.GoSizeProofs.
 Open Scope Z_scope.
 
 (* to / oto: for EVERY rule text whose value the code parses to integer bounds lo~hi (negative,
@@ -63,6 +65,61 @@ Print Assumptions C01_rule_table.
 Theorem C01_sweep_8bit : sweep_ok = true.
 Proof. exact sweep_8bit. Qed.
 Print Assumptions C01_sweep_8bit.
+
+(* FROM THE SOURCE TEXT.  fn_validInputSize and fn_eq are the go/ast syntax trees of
+   validInputSize (valid/common.go) and eq (valid/validfn.go), regenerated from /repo on every run
+   (Extracted/SourceFns.v).  Under the semantics of Model/GoSize.v they compute, for EVERY pair of
+   int64 bounds, every value and both modes, exactly what the hand-written model computes; and no
+   run meets a statement or expression form the semantics does not know.  A change to either
+   function that changes a verdict makes these proofs fail. *)
+Theorem C01_size_from_source : forall mn mx v he, in_int64 mn = true -> in_int64 mx = true ->
+  run_size fn_validInputSize mn mx v he = Some (valid_input_size mn mx v (he_mode he)).
+Proof. exact size_from_source. Qed.
+Print Assumptions C01_size_from_source.
+Theorem C01_eq_from_source : forall n v, in_int64 n = true -> run_eq fn_eq n v = Some (eq_holds n v).
+Proof. exact eq_from_source. Qed.
+Print Assumptions C01_eq_from_source.
+Theorem C01_source_never_stuck :
+  forallb (fun k => forallb (fun he => no_stuck (sym_run fn_validInputSize k he)) [None; Some true; Some false])
+          [KStr; KFlt true; KFlt false; KIntW W8; KIntW WInt; KUintW W8; KUintW WInt; KSlc; KOtherKind "Bool"] = true.
+Proof. exact size_never_stuck. Qed.
+
+(* THROUGH THE RULE TEXT, unbounded: strconv.Itoa then strconv.Atoi is the identity on every int64,
+   and for every pair of int64 bounds the text  key=lo~hi[|msg]  (resp. key=b[|msg]) written by the
+   documented builder is read back by the rule function as exactly (lo, hi) (resp. b) and judged by
+   it.  wf_rule is the builder's domain (C14); the Example below shows it is met. *)
+Theorem C01_itoa_atoi : forall z, in_int64 z = true -> atoi (itoa z) = (z, false).
+Proof. exact atoi_itoa. Qed.
+Print Assumptions C01_itoa_atoi.
+Theorem C01_to_oto_through_text : forall he key lo hi m obj field v x,
+  in_int64 lo = true -> in_int64 hi = true -> not_bracketed key = true ->
+  let r := {| r_key := key; r_val := itoa lo ++ TILDE ++ itoa hi; r_msg := m |} in
+  wf_rule r = true -> sizeable v = true -> measure v = Some x ->
+  violated (to_like he (RuleTextSpec.rule_text r) obj field v) = negb (in_set (if he then RTo else ROTo) lo hi x) /\
+  (length (to_like he (RuleTextSpec.rule_text r) obj field v) <= 1)%nat.
+Proof. exact two_bound_rules_text. Qed.
+Print Assumptions C01_to_oto_through_text.
+Theorem C01_one_sided_through_text : forall lower he rule key b m obj field v x,
+  in_int64 b = true -> not_bracketed key = true ->
+  let r := {| r_key := key; r_val := itoa b; r_msg := m |} in
+  wf_rule r = true -> sizeable v = true -> measure v = Some x ->
+  violated (one_sided lower he rule (RuleTextSpec.rule_text r) obj field v) =
+    negb (in_set (if lower then (if he then RGe else RGt) else (if he then RLe else RLt)) b b x) /\
+  (length (one_sided lower he rule (RuleTextSpec.rule_text r) obj field v) <= 1)%nat.
+Proof. exact one_bound_rules_text. Qed.
+Theorem C01_eq_noeq_through_text : forall want key b m obj field v x,
+  in_int64 b = true -> not_bracketed key = true ->
+  let r := {| r_key := key; r_val := itoa b; r_msg := m |} in
+  wf_rule r = true -> sizeable v = true -> measure v = Some x ->
+  violated (eq_like want (RuleTextSpec.rule_text r) obj field v) = negb (in_set (if want then REq else RNoEq) b 0 x) /\
+  (length (eq_like want (RuleTextSpec.rule_text r) obj field v) <= 1)%nat.
+Proof. exact eq_rules_text. Qed.
+Print Assumptions C01_eq_noeq_through_text.
+Example C01_text_hypotheses_satisfiable :
+  let r := {| r_key := s2b "oto"; r_val := itoa (-9223372036854775808) ++ TILDE ++ itoa 9223372036854775807; r_msg := Some (s2b "M1") |} in
+  wf_rule r = true /\ not_bracketed (r_key r) = true /\
+  RuleTextSpec.rule_text r = s2b "oto=-9223372036854775808~9223372036854775807|M1".
+Proof. vm_compute. repeat split; reflexivity. Qed.
 
 (* non-vacuity: negative bounds, lo > hi, a multi-byte string, an unsigned value *)
 Example C01_examples :
